@@ -724,6 +724,19 @@ func (e *Engine) handleLoop(fc *fnCtx, li *loopInfo, sIn *State) map[*ssa.BasicB
 			f := e.evalInv(fc, li, bs, inv)
 			e.addObl(fc.fn, "inv.preserved", invLabel(li, i, inv), li.header.Instrs[0].Pos(), bs.Reach, f)
 		}
+		if fc.contract != nil && len(fc.contract.Asserts) > 0 && len(e.inlineStack) == 0 {
+			texts := loopTexts(fc.fn)
+			for key, cls := range fc.contract.Asserts {
+				if !strings.HasPrefix(key, "backedge ") {
+					continue
+				}
+				if ord, ok := resolveLoopKey(texts, strings.TrimPrefix(key, "backedge ")); ok && ord == li.ordinal {
+					for _, cl := range cls {
+						e.addObl(fc.fn, "assert", "["+key+"] "+cl.Text, li.header.Instrs[0].Pos(), bs.Reach, e.evalInv(fc, li, bs, cl))
+					}
+				}
+			}
+		}
 		for _, n := range frameHeaps {
 			if f, ok := e.frameFormula(fc, n, bs); ok {
 				e.addObl(fc.fn, "frame.preserved", fmt.Sprintf("[%d] %s", li.ordinal, n), li.header.Instrs[0].Pos(), bs.Reach, f)
